@@ -194,6 +194,14 @@ pub fn run() -> Report {
             if c.n >= 10_000 {
                 spec.env.push(("VERIF_RUN_TIMEOUT".into(), "600".into()));
             }
+            // how the heights are spelled is not part of the range: decimal numbers with leading zeros (0250 is two hundred and
+            // fifty), with a plus sign, as --start=N (HEAD accepts all of them, they are what wrapper scripts produce)
+            match i % 7 {
+                1 => spec.env.push(("VERIF_ARGV_FORM".into(), "2".into())),
+                3 => spec.env.push(("VERIF_ARGV_FORM".into(), "3".into())),
+                5 => spec.env.push(("VERIF_ARGV_FORM".into(), "1".into())),
+                _ => {}
+            }
             if let Err(m) = wk.materialise(&world) {
                 acc.machinery(m);
                 return;
